@@ -4,7 +4,8 @@ C16 — loading is independent of the metamodel's history.
 Two dimensions.  Histories are *enumerated* (finite universe):
 sequences of up to L operations on a subject metamodel — loads of accepted
 inputs, of syntactically rejected inputs, of inputs failing in reference
-resolution, loads from a file, and the construction + use of a sibling
+resolution, of inputs failing while the object graph is built (a match-rule
+processor rejects a value nested inside other objects), loads from a file, and the construction + use of a sibling
 metamodel of the same grammar with every parser flag flipped (ignore_case,
 autokwd, skipws, memoization) in the same process (before the subject is built
 when the history starts with it).  Process discipline: the reference side
@@ -56,7 +57,11 @@ SCENARIOS = [
     ('eolterm', {'skipws': True}, False),
 ]
 OPS = ['load-accepted-0', 'load-accepted-1', 'load-rejected-0', 'load-rejected-1', 'load-dangling-ref',
-       'load-from-file', 'sibling-flipped-flags', 'sibling-same-config']
+       'load-from-file', 'sibling-flipped-flags', 'sibling-same-config', 'load-failing-in-construction']
+# inputs that parse but fail while the object graph is built (a match-rule processor registered
+# by build() rejects the identifier 'boom' / the integer 13), nested inside other objects
+CONSTRUCTION_FAILURE = {'objref': 'd a d boom', 'recursive': '(a (b (boom)))', 'abstract': '1 ((13))',
+                        'noskipws-reset': 'p<13>', 'kw-basic': 'in boom'}
 
 
 def grammar(name):
@@ -82,7 +87,21 @@ def build(g, cfg, with_classes):
     c.update(cfg)
     if with_classes:
         c['classes'] = user_classes(g)
-    return metamodel_from_str(render_grammar(g['rules']), **c)
+    mm = metamodel_from_str(render_grammar(g['rules']), **c)
+    if g['name'] in CONSTRUCTION_FAILURE:
+        from textx.exceptions import TextXSemanticError
+
+        def id_proc(v):
+            if str(v).lower() == 'boom':
+                raise TextXSemanticError('identifier rejected by its processor')
+            return v
+
+        def int_proc(v):
+            if int(v) == 13:
+                raise TextXSemanticError('integer rejected by its processor')
+            return int(v)
+        mm.register_obj_processors({'ID': id_proc, 'INT': int_proc})
+    return mm
 
 
 def flipped(g, cfg):
@@ -149,6 +168,9 @@ def run_ops(g, cfg, with_classes, hist, acc_texts, rej_texts, fn):
         elif op == 'load-from-file':
             if acc_texts:
                 describe(subject, acc_texts[0], from_file=fn)
+        elif op == 'load-failing-in-construction':
+            if g['name'] in CONSTRUCTION_FAILURE:
+                describe(subject, CONSTRUCTION_FAILURE[g['name']])
         elif op.startswith('sibling'):
             sib = build(g, flipped(g, cfg) if op == 'sibling-flipped-flags' else cfg, False)
             for t in (acc_texts[:1] + rej_texts[:1]):
